@@ -7,7 +7,7 @@ CONSTANTS
   MaxStack = 1
   BindVals <- MacPctVals
   MaxBindings = 3
-  Enabled = {"Bind", "DefineConstant", "Interactive"}
+  Enabled = {"Bind", "DefineConstant", "Interactive", "QueryConst"}
   NameOrder <- NamesMac
   HookUniverse = {}
   BindApis = {"text"}
